@@ -117,9 +117,12 @@ def make_command(rng, big=False):
     if k < 0.75:
         o1, o2 = payload(), payload()
         return ('c:' + o1 + '\nc:' + o2, (o1 + o2).replace('~', '\n'), False)        # two complete lines in one command
-    if k < 0.88:
+    if k < 0.84:
         return ('open', None, True)
-    return ('open\nmore', None, True)
+    if k < 0.92:
+        return ('open\nmore', None, True)
+    # earlier lines are complete and print, the last one is incomplete: ValueError, and nothing of it may leak into later commands
+    return ('c:' + payload() + 'a\nopen', None, True)
 
 
 MAPPING = P.Mapping({c: c for c in 'ab[]PEXCTROM_>+ KydIu'}, unicode_mode=True)
@@ -302,8 +305,10 @@ def real_repl(kind, rng, ncmds, ctx, big_sizes, variant):
                     cmd, want, inc = 'for i in 1 2\ndo echo %s$i\ndone' % tok, '%s1\r\n%s2\r\n' % (tok, tok), False
                 elif k < 0.75:
                     cmd, want, inc = "echo '%s\n\n%s'" % (tok, tok), '%s\r\n\r\n%s\r\n' % (tok, tok), False      # blank line inside a quoted string
-                elif k < 0.8:
+                elif k < 0.78:
                     cmd, want, inc = 'echo "%s' % tok, None, True
+                elif k < 0.82:
+                    cmd, want, inc = 'echo LEFT%s\necho "%s' % (tok, tok), None, True          # printed something, then incomplete
                 else:
                     size = rng.choice(big_sizes)
                     cmd, want, inc = "head -c %d /dev/zero | tr '\\0' x; echo" % size, 'x' * size + '\r\n', False
@@ -318,8 +323,10 @@ def real_repl(kind, rng, ncmds, ctx, big_sizes, variant):
                     cmd, want, inc = 'for i in range(2):\n    print(%r, i)\n' % tok, '%s 0\r\n%s 1\r\n' % (tok, tok), False
                 elif k < 0.75:
                     cmd, want, inc = 's = \'\'\'%s\n\n%s\'\'\'\nprint(len(s))' % (tok, tok), '%d\r\n' % (2 * len(tok) + 2), False
-                elif k < 0.8:
+                elif k < 0.78:
                     cmd, want, inc = 'for i in range(2):', None, True
+                elif k < 0.82:
+                    cmd, want, inc = 'print("LEFT%s")\nfor i in range(2):' % tok, None, True
                 else:
                     size = rng.choice(big_sizes)
                     cmd, want, inc = 'print("x" * %d)' % size, 'x' * size + '\r\n', False
